@@ -123,6 +123,19 @@ def dt_chain(ctx):
                     ctx.check(got == dt, 'C11-3.dt', '%s -> %s' % (fid, tg), 'callee receives the caller\'s dt unchanged',
                               'callee receives %s' % show(got, an.names)[:160], ctx.where(b, c.span))
     ctx.floor('dt hand-down call sites', n, 4)
+    # where dt comes from: the traces' own step size, time[i] − time[i−1] (both trace types), and the mean speed of a step
+    from sa.terms import mk
+    for fid in ('PowerTrace::dt', 'SpeedTrace::dt'):
+        b = prog.by_id.get(fid)
+        if b is None:
+            ctx.unproved('C11-3.dt', fid, 'anchor not found'); continue
+        an = analysis_or_fail(ctx, 'C11-3.dt', b)
+        if an is None or len(b.params) != 2:
+            continue
+        i = ('pre', (('val', b.params[1][0]),))
+        tm = lambda k: ('pre', (('obj', b.params[0][0]), ('f', 'time'), ('idx', k)))
+        want = mk('sub', tm(i), tm(mk('sub', i, ONE)))
+        ctx.check(an.ret() == want, 'C11-3.dt', fid, 'the step size of step i is time[i] − time[i−1] of the trace', 'returns %s' % show(an.ret(), an.names)[:120], ctx.where(b))
 
 
 def getters(ctx):
